@@ -343,6 +343,9 @@ pub enum Op {
     /// harness-side: `<cache>/tmp` becomes a symlink to a directory on another filesystem (a
     /// legal layout in which the temp file cannot be renamed into the content area)
     TmpElsewhere,
+    /// a removal record (integrity null) for `key`, written by the reference writer into the
+    /// bucket file of `bucket_of` (harness-side; foreign when the keys differ)
+    ForeignTombstone { bucket_of: usize, key: usize },
     /// every file in the cache gets a modification time `days` in the past (harness-side: the
     /// cache has aged; nothing about the entries changes)
     AgeCache { days: u32 },
@@ -368,7 +371,7 @@ pub enum Op {
 
 impl Op {
     pub fn is_harness_side(&self) -> bool {
-        matches!(self, Op::DamageContent { .. } | Op::DamageBucket { .. } | Op::ForeignRecord { .. } | Op::Chdir { .. } | Op::PlantRecord { .. } | Op::TmpElsewhere | Op::RemoveTarget { .. } | Op::SwitchCache | Op::AgeCache { .. })
+        matches!(self, Op::DamageContent { .. } | Op::DamageBucket { .. } | Op::ForeignRecord { .. } | Op::Chdir { .. } | Op::PlantRecord { .. } | Op::TmpElsewhere | Op::RemoveTarget { .. } | Op::SwitchCache | Op::AgeCache { .. } | Op::ForeignTombstone { .. })
     }
     pub fn name(&self) -> &'static str {
         match self {
@@ -400,6 +403,7 @@ impl Op {
             Op::RemoveHashMulti { .. } => "remove_hash",
             Op::SwitchCache => "switch_cache",
             Op::AgeCache { .. } => "age_cache",
+            Op::ForeignTombstone { .. } => "foreign_tombstone",
             Op::TwoWriters { .. } => "two_writers",
         }
     }
